@@ -241,6 +241,11 @@ static str apply(String & s, const std::vector<str> & a, bool allowAlias, String
    if (c == "waw")  {SA(1); CBuf sep(unhex(a[2])); prod = new String(s.WithAppendedWord(S1, sep._p)); if (*prod != s.WithAppendedWord(S1(), sep._p)) complaint = "WithAppendedWord(String) != (cstr)"; return "r";}
    if (c == "wpw")  {SA(1); CBuf sep(unhex(a[2])); prod = new String(s.WithPrependedWord(S1, sep._p)); return "r";}
    if (c == "ind")  {prod = new String(s.IndentedBy(U(a[1]), CH(2))); return "r";}
+   if (c == "plh")  {prod = new String(s + CH(1)); return "r";}
+   if (c == "hpl")  {prod = new String(CH(1) + s); return "r";}
+   if (c == "cpl")  {CBuf b(unhex(a[1])); prod = new String(((const char *) b._p) + s); if (*prod != (b._p + s)) complaint = "operator+(const char*, String) != operator+(char*, String)"; return "r";}
+   if (c == "mns")  {SA(1); prod = new String(s - S1); if (*prod != (s - S1())) complaint = "operator-(String, String) != operator-(String, cstr)"; return "r";}
+   if (c == "mnh")  {prod = new String(s - CH(1)); return "r";}
    if (c == "esc")
    {
       CBuf seps(unhex(a[1]));
@@ -471,6 +476,11 @@ static str ref_apply(str & s, const std::vector<str> & a, bool & hasProd, str & 
       }
       return "r";
    }
+   if (c == "plh")  {prod = s + RH(1); return "r";}
+   if (c == "hpl")  {prod = str(1, RH(1)) + s; return "r";}
+   if (c == "cpl")  {prod = unhex(a[1]) + s; return "r";}
+   if (c == "mns")  {prod = s; const str x = RS(1); if (!x.empty()) {const size_t p = s.rfind(x); if (p != str::npos) prod.erase(p, x.size());} return "r";}
+   if (c == "mnh")  {prod = s; const size_t p = s.rfind(RH(1)); if (p != str::npos) prod.erase(p, 1); return "r";}
    if (c == "esc")
    {
       // reference: a character of (seps) gets the escape character in front of it, so does a free-standing escape
